@@ -37,7 +37,7 @@ def ops_of(sc):
     return out
 
 
-def nontrivial(sc, ob):
+def nontrivial(sc, ob, verdict):
     if not ob["log"]:
         return False
     srcs = sx.field(sc[1:], "srcs")
